@@ -194,6 +194,7 @@ class Model(object):
         self.ngraph = to_json(norm_graph(cond.graph))
         self.evaluator = evaluator
         self.evals = 0
+        self.nonexpr_errors = []   # evaluator failures that were not ExpressionEvaluationExceptions
         self.p = subprocess.Popen([DRIVER], stdin=subprocess.PIPE, stdout=subprocess.PIPE)
         r = self._call(["init", self.nspec, self.ngraph, inputs or {}, parent or {}])
         if r != ["ok"]:
@@ -205,7 +206,10 @@ class Model(object):
             r = wire.loads(wire.read_msg(self.p.stdout))
             if r and r[0] == "eval":
                 self.evals += 1
-                wire.write_msg(self.p.stdin, wire.dumps(self.evaluator(r[1], r[2])))
+                ans = self.evaluator(r[1], r[2])
+                if ans[0] == "err" and not ans[3]:
+                    self.nonexpr_errors.append((r[1], ans[1], ans[2]))
+                wire.write_msg(self.p.stdin, wire.dumps(ans))
                 continue
             return r
 
